@@ -19,8 +19,8 @@
 (***************************************************************************)
 EXTENDS Decode, TraceBase
 
-VARIABLES l, cur, masters
-tvars == <<file, phase, l, cur, masters>>
+VARIABLES l, cur, masters, pos
+tvars == <<file, phase, l, cur, masters, pos>>
 
 Ev == Rec[l]
 FileEv == Rec[cur]
@@ -29,11 +29,17 @@ FileEv == Rec[cur]
 ObsVal(o)  == NormVal(Val(o.k, o.runs, o.b))
 ObsValN(o) == NormVal(Val(o.k, o.runsn, o.b))          \* line ends normalised (CR LF | CR -> LF) by the driver
 
-(* where the text of a string-typed cell comes from: [rich, runs, runsx, cr, amb] *)
+(* where the text of a string-typed cell comes from: [rich, runs, runsx, cr, amb, hx, xu, du] *)
 Src(c, sst) ==
   CASE c.t = "s"         -> sst[c.vi + 1]
     [] c.t = "inlineStr" -> c.isr
-    [] OTHER             -> [rich |-> FALSE, runs |-> <<c.v>>, runsx |-> <<c.vx>>, cr |-> c.cr, amb |-> FALSE]
+    [] OTHER             -> [rich |-> FALSE, runs |-> <<c.v>>, runsx |-> <<c.vx>>, cr |-> c.cr, amb |-> FALSE, hx |-> c.hx,
+                             xu |-> IF c.hx THEN c.xu ELSE <<>>, du |-> IF c.hx THEN c.du ELSE <<>>]
+(* ST_Xstring: the extraction delivers the text before (xu) and after (du) its decoding as UTF-16 code units wherever "_x"
+   occurs; the specification decodes xu itself.  XAgrees: the extraction decoded as Decode!XDecode does (else the tool
+   is wrong, not the library); XDecided: the decoded text has no lone surrogate (else it is not judged) *)
+XAgrees(src)  == ~src.hx \/ \A i \in DOMAIN src.xu : XDecode(src.xu[i]) = src.du[i]
+XDecided(src) == ~src.hx \/ \A i \in DOMAIN src.du : WellFormed16(src.du[i])
 IsTextCell(c) == (c.t \in {"s", "str"} /\ c.hv) \/ (c.t = "inlineStr" /\ c.his)
 
 (* CellValue::guess_typed_data as far as the generator exercises it (gb = the text as a double, "" if none) *)
@@ -63,6 +69,16 @@ KF5Out(c, o) == ObsVal(o) = NormVal(TextVal(c.vt))
 KF6Trig(c, sst) == IsTextCell(c) /\ Src(c, sst).runsx # Src(c, sst).runs
 KF6Out(c, sst, o) == ObsVal(o) = NormVal(RstVal([rich |-> Src(c, sst).rich, runs |-> Src(c, sst).runsx]))
 
+(* C03-KF10: an empty shared string item written as the empty-element tag <si/> is not counted, so every later index
+   designates the item after the intended one (and an index beyond the shortened table makes the load panic) *)
+NonSe(sst) == SelectSeq(sst, LAMBDA x : ~x.se)
+HasSe(sst) == \E i \in DOMAIN sst : sst[i].se
+KF10Trig(c, sst) == c.t = "s" /\ c.hv /\ HasSe(sst) /\ c.vi < Len(NonSe(sst))
+KF10Out(c, sst, o) == ObsVal(o) = NormVal(RstVal(NonSe(sst)[c.vi + 1]))
+(* C03-KF11: a phonetic run <rPh> of a plain inline string replaces the string's text *)
+KF11Trig(c) == c.t = "inlineStr" /\ c.his /\ ~c.isr.rich /\ c.isr.ph
+KF11Out(c, o) == ObsVal(o) = NormVal(TextVal(c.isr.pht))
+
 (* a <t> with outer white space that no xml:space="preserve" protects: XML delivers the white space, Excel drops it, so
    the outer white space of every run is not judged - everything else is: the extraction delivers such runs trimmed, and
    the library's runs are compared trimmed (runst); a value replaced by the white space between elements is rejected *)
@@ -71,12 +87,16 @@ ValueVerdict(c, sst, o0) ==
   LET want == NormVal(DecodeValue(c, sst))
       o    == IF IsTextCell(c) /\ Src(c, sst).amb THEN TrimObs(o0) ELSE o0
   IN
-  IF ObsVal(o) = want THEN "ok"
+  IF IsTextCell(c) /\ ~XAgrees(Src(c, sst)) THEN "gen"
+  ELSE IF IsTextCell(c) /\ ~XDecided(Src(c, sst)) THEN "skip"
+  ELSE IF ObsVal(o) = want THEN "ok"
   ELSE IF KFOn("C03-KF2") /\ KF2Trig(c, sst) /\ KF2Out(c, sst, want, o) THEN "C03-KF2"
   ELSE IF KFOn("C03-KF3") /\ KF3Trig(c) /\ KF3Out(c, o) THEN "C03-KF3"
   ELSE IF KFOn("C03-KF4") /\ KF4Trig(c) /\ KF4Out(c, o) THEN "C03-KF4"
   ELSE IF KFOn("C03-KF5") /\ KF5Trig(c) /\ KF5Out(c, o) THEN "C03-KF5"
   ELSE IF KFOn("C03-KF6") /\ KF6Trig(c, sst) /\ KF6Out(c, sst, o) THEN "C03-KF6"
+  ELSE IF KFOn("C03-KF10") /\ KF10Trig(c, sst) /\ KF10Out(c, sst, o) THEN "C03-KF10"
+  ELSE IF KFOn("C03-KF11") /\ KF11Trig(c) /\ KF11Out(c, o) THEN "C03-KF11"
   ELSE "bad"
 
 (* ---- formulas ---------------------------------------------------------------------- *)
@@ -141,19 +161,26 @@ ItemVerdicts(it, sst, xfs, m) ==
   THEN IF o.k = "blank" /\ ~o.hf THEN {"ok"} ELSE {"bad"}
   ELSE {"ok"}
 
-(* fold over a batch: [m: shared-formula table afterwards, v: sequence of verdict sets] *)
-RECURSIVE Fold(_, _, _, _, _, _)
-Fold(items, i, sst, xfs, m, acc) ==
-  IF i > Len(items) THEN [m |-> m, v |-> acc]
+(* the position of a cell of the file is derived by the specification (Decode!CellPosition) from the r= attributes as
+   written; the extraction's own derivation (it.r, it.c - used to pair the cell with the library's) must agree *)
+PosVerdict(it, p) == IF ~it.rp THEN {}
+                     ELSE LET d == CellPosition(p, it.raw) IN IF d.row = it.r /\ d.col = it.c THEN {} ELSE {"gen"}
+(* fold over a batch: [m: shared-formula table afterwards, p: position state afterwards, v: sequence of verdict sets] *)
+RECURSIVE Fold(_, _, _, _, _, _, _)
+Fold(items, i, sst, xfs, m, p, acc) ==
+  IF i > Len(items) THEN [m |-> m, p |-> p, v |-> acc]
   ELSE Fold(items, i + 1, sst, xfs, IF items[i].rp THEN TNext(m, items[i].raw) ELSE m,
-            Append(acc, ItemVerdicts(items[i], sst, xfs, m)))
+            IF items[i].rp THEN PosAfter(p, items[i].raw) ELSE p,
+            Append(acc, ItemVerdicts(items[i], sst, xfs, m) \cup PosVerdict(items[i], p)))
 
 Brief(it) == [r |-> it.r, c |-> it.c, t |-> it.raw.t, v |-> it.raw.v, f |-> it.raw.f.text, si |-> it.raw.f.si,
               ok |-> it.obs.k, ov |-> it.obs.runs, ob |-> it.obs.b, of |-> it.obs.f, ofid |-> it.obs.fid]
 Report(e, v) ==
   LET bad == {i \in DOMAIN v : "bad" \in v[i]}
-      kfs == UNION {v[i] \ {"ok", "bad", "skip"} : i \in DOMAIN v \ bad}
-  IN /\ IF bad = {} THEN TRUE
+      gen == {i \in DOMAIN v : "gen" \in v[i]}
+      kfs == UNION {v[i] \ {"ok", "bad", "skip", "gen"} : i \in DOMAIN v \ bad}
+  IN /\ IF gen # {} THEN Mismatch(l, <<"gen", "cell", e.sheet, Brief(e.items[MinOf(gen)])>>)     \* the tool, not the library
+        ELSE IF bad = {} THEN TRUE
         ELSE Mismatch(l, <<"impl", "cell", e.sheet, Cardinality(bad), Brief(e.items[MinOf(bad)])>>)
      /\ \A id \in kfs : \A i \in {j \in DOMAIN v \ bad : id \in v[j]} : KFHit(id, l)
 
@@ -172,9 +199,11 @@ KF8Out(e, sst, xfs) ==
   /\ \A i \in DOMAIN e.items : (e.items[i].r # 1 \/ e.items[i].c # 1) =>       \* (a hyperlink still makes an empty cell)
         (~e.items[i].op \/ (e.items[i].obs.k = "blank" /\ ~e.items[i].obs.hf))
   /\ \A i \in DOMAIN e.items : e.items[i].rp => e.items[i].raw.f.k # "shared"
-  /\ LET v == Fold(KF8Items(e.items), 1, sst, xfs, NoMasters, <<>>).v IN \A i \in DOMAIN v : "bad" \notin v[i]
+  /\ LET v == Fold(KF8Items(e.items), 1, sst, xfs, NoMasters, Pos0, <<>>).v IN \A i \in DOMAIN v : "bad" \notin v[i]
 
 (* ---- events -------------------------------------------------------------------------- *)
+(* C03-KF10 at file level: a cell's shared string index lies beyond the table shortened by the <si/> items *)
+KF10Panic(e) == HasSe(e.sst) /\ e.maxsi >= Len(NonSe(e.sst)) /\ e.maxsi < Len(e.sst) /\ e.outcome = "panic"
 FileOk(e) == /\ e.outcome = "ok"
              /\ e.sheets = e.osheets                        \* sheet names, in workbook order
              /\ e.names = e.onames                          \* defined names (name, scope), sorted
@@ -187,25 +216,26 @@ SheetOk(e) == /\ \A i \in DOMAIN e.links : LinkOk(e.links[i])
 
 Step(e) ==
   CASE e.a = "File" ->
-         /\ cur' = l /\ masters' = NoMasters
+         /\ cur' = l /\ masters' = NoMasters /\ pos' = Pos0
          /\ IF FileOk(e) THEN TRUE
+            ELSE IF KFOn("C03-KF10") /\ KF10Panic(e) THEN KFHit("C03-KF10", l)
             ELSE Mismatch(l, <<"impl", "file", e.file, e.outcome, e.msg,
                                IF e.sheets # e.osheets THEN <<"sheets", e.sheets, e.osheets>> ELSE <<"names", e.names, e.onames>> >>)
     [] e.a = "Sheet" ->
-         /\ cur' = cur /\ masters' = NoMasters
+         /\ cur' = cur /\ masters' = NoMasters /\ pos' = Pos0
          /\ IF SheetOk(e) THEN TRUE ELSE Mismatch(l, <<"impl", "sheet", e.sheet, e.links, e.tcols, e.otcols>>)
     [] e.a = "Cells" ->
          (* (bound variables of a singleton set are evaluated once; a LET definition would be re-evaluated per use) *)
          \E ctx \in {[sst |-> FileEv.sst, xfs |-> FileEv.xfs, items |-> e.items]} :
-         \E res \in {Fold(ctx.items, 1, ctx.sst, ctx.xfs, masters, <<>>)} :
-            /\ cur' = cur /\ masters' = res.m
+         \E res \in {Fold(ctx.items, 1, ctx.sst, ctx.xfs, masters, IF e.pos0.set THEN [row |-> e.pos0.row, col |-> e.pos0.col] ELSE pos, <<>>)} :
+            /\ cur' = cur /\ masters' = res.m /\ pos' = res.p
             /\ IF (\E i \in DOMAIN res.v : "bad" \in res.v[i]) /\ KFOn("C03-KF8") /\ KF8Trig(e) /\ KF8Out(e, ctx.sst, ctx.xfs)
                THEN KFHit("C03-KF8", l)
                ELSE Report(e, res.v)
-    [] OTHER -> /\ cur' = cur /\ masters' = masters
+    [] OTHER -> /\ cur' = cur /\ masters' = masters /\ pos' = pos
                 /\ Mismatch(l, <<"impl", "fatal", e.a, e.outcome>>)
 
-TraceInit == l = 1 /\ cur = 1 /\ masters = NoMasters /\ file = 0 /\ phase = "trace"
+TraceInit == l = 1 /\ cur = 1 /\ masters = NoMasters /\ pos = Pos0 /\ file = 0 /\ phase = "trace"
 TraceNext == l <= Len(Rec) /\ l' = l + 1 /\ Step(Ev) /\ UNCHANGED <<file, phase>>
 TraceSpec == TraceInit /\ [][TraceNext]_tvars
 =============================================================================
